@@ -14,10 +14,14 @@
 #include <fcntl.h>
 #include <sys/wait.h>
 #include <climits>
+#include <csignal>
 #include <set>
 #include <memory>
 #include <algorithm>
 #include <functional>
+#include <array>
+#include <type_traits>
+#include <cstddef>
 #include <igris/datastruct/pool.h>
 #include <igris/container/pool.h>
 #include <igris/container/static_object_pool.h>
@@ -69,7 +73,8 @@ static const size_t STATIC_ARENA = 1u << 20;
 alignas(64) char _heap_start[STATIC_ARENA]; // the symbol lin_malloc.cpp links against
 
 // stubs for the critical-section / system-lock symbols of the bare-metal build
-extern "C" int critical_context_level(void) { return 0; }
+static int crit_level = 0;
+extern "C" int critical_context_level(void) { return crit_level; }
 static int lock_depth = 0, lock_max = 0;
 extern "C" void system_lock(void)
 {
@@ -79,6 +84,31 @@ extern "C" void system_lock(void)
 extern "C" void system_unlock(void) { lock_depth--; }
 
 static std::string s(long long v) { return std::to_string(v); }
+static std::string early_report __attribute__((init_priority(101)));
+// Runs BEFORE main() and before every dynamic initialiser of default priority (the allocator's own statics,
+// e.g. `static igris::syslock lock;` in lin_realloc.cpp, the harness' globals): a bare-metal start-up code calls
+// malloc from constructors of static objects.  The allocator must work from its constant-initialised state
+// (__brkval == NULL, __flp == NULL, __malloc_heap_start == &_heap_start).
+struct EarlyHeapUser
+{
+    EarlyHeapUser()
+    {
+        char buf[200];
+        char *a = (char *)igv_malloc(10);
+        for (int i = 0; a && i < 10; i++) a[i] = (char)(i + 1);
+        char *b = (char *)igv_realloc(a, 100);
+        bool kept = b != nullptr;
+        for (int i = 0; b && i < 10; i++) kept = kept && b[i] == (char)(i + 1);
+        char *c = (char *)igv_malloc(0);
+        long brk3 = __brkval ? (long)(__brkval - _heap_start) : -1;
+        igv_free(b);
+        igv_free(c);
+        snprintf(buf, sizeof buf, "early a=%ld b=%ld c=%ld brk=%ld end=%ld fl=%d%s", a ? (long)(a - _heap_start) : -1, b ? (long)(b - _heap_start) : -1,
+                 c ? (long)(c - _heap_start) : -1, brk3, __brkval ? (long)(__brkval - _heap_start) : -1, __flp ? 1 : 0, kept ? "" : " PREFIX-LOST");
+        early_report = buf; // std::string with init_priority(101) too: constructed before this object (same TU, declared first)
+    }
+};
+static EarlyHeapUser early_heap_user __attribute__((init_priority(101)));
 static std::string su(size_t v) { return std::to_string((unsigned long long)v); }
 static uint64_t g_seed = 1;
 
@@ -89,11 +119,55 @@ struct PoolCase
 {
     size_t e = 0, cap = 0;
     std::unique_ptr<exact_buf> zone;
+    std::vector<std::unique_ptr<exact_buf>> old_zones; // zones of earlier init() calls on the same object (kept mapped)
     pool_head head;
     igris::pool ip;
     bool is_ip = false;
     std::map<size_t, uint64_t> live; // offset -> pattern seed
     uint64_t ctr = 1;
+    // NAMES.  The property does not say WHICH free cell an allocation returns.  Ops and result lines therefore name
+    // cells not by their real address but by the cell a reference LIFO discipline (the model's, mirrored by the
+    // generator) would hand out at that point of the history; the harness binds each name to the real cell the code
+    // returned.  Everything about the real cell (zone, boundary, alignment, overlap, contents) is judged by the oracle.
+    std::vector<size_t> name_free;  // names not handed out, back() = next one
+    std::map<size_t, size_t> bound; // name -> real offset
+    void names_init()
+    {
+        name_free.clear();
+        bound.clear();
+        for (size_t i = 0; i < cap; i++) name_free.push_back(i * e);
+    }
+    // the name of the cell just handed out (real offset `off`)
+    std::string name_alloc(size_t off)
+    {
+        if (name_free.empty()) return "?" + std::to_string(off); // more cells than the capacity: the oracle has failed already
+        size_t nm = name_free.back();
+        name_free.pop_back();
+        bound[nm] = off;
+        return std::to_string(nm);
+    }
+    // the real cell behind a name; a name that is not handed out stands for "some free cell": any real free cell
+    bool real_of(size_t nm, size_t &off)
+    {
+        auto it = bound.find(nm);
+        if (it != bound.end())
+        {
+            off = it->second;
+            return true;
+        }
+        for (size_t i = 0; i < cap; i++)
+            if (!live.count(i * e))
+            {
+                off = i * e;
+                return true;
+            }
+        return false;
+    }
+    void name_release(size_t nm)
+    {
+        bound.erase(nm);
+        name_free.push_back(nm);
+    }
 
     void fill(size_t off)
     {
@@ -152,6 +226,39 @@ struct MPoolCase
     std::map<std::pair<size_t, size_t>, uint64_t> live; // (zone, offset) -> pattern seed
     size_t cap = 0;                                     // sum of the cells of all zones engaged so far
     uint64_t ctr = 1;
+    // NAMES (see PoolCase): (zone, offset) of the cell the reference LIFO discipline would hand out
+    typedef std::pair<size_t, size_t> Cell;
+    std::vector<Cell> name_free;
+    std::map<Cell, Cell> bound; // name -> real (zone, offset)
+    void names_engage(size_t k, size_t n, size_t e)
+    {
+        for (size_t i = 0; i < n; i++) name_free.push_back({k, i * e});
+    }
+    std::string name_alloc(Cell real)
+    {
+        if (name_free.empty()) return "?" + std::to_string(real.first) + ":" + std::to_string(real.second);
+        Cell nm = name_free.back();
+        name_free.pop_back();
+        bound[nm] = real;
+        return std::to_string(nm.first) + ":" + std::to_string(nm.second);
+    }
+    bool real_of(Cell nm, Cell &real)
+    {
+        auto it = bound.find(nm);
+        if (it != bound.end())
+        {
+            real = it->second;
+            return true;
+        }
+        for (size_t k = 0; k < zones.size(); k++)
+            for (size_t i = 0; i < zones[k].n; i++)
+                if (!live.count({k, i * zones[k].e}))
+                {
+                    real = {k, i * zones[k].e};
+                    return true;
+                }
+        return false;
+    }
 
     // which zone does the pointer point into?  (-1: none)
     long zone_of(const void *q) const
@@ -315,6 +422,14 @@ struct SopCase
     std::set<std::pair<size_t, size_t>> live; // (zone, offset); zone 0 = the pool's own storage
     std::vector<std::pair<char *, size_t>> extra; // zones engaged through freelist(): base, cells
     size_t cap = 0;
+    // NAMES (see PoolCase): (zone, offset) of the cell the reference LIFO discipline would hand out
+    typedef std::pair<size_t, size_t> Cell;
+    std::vector<Cell> name_free;
+    std::map<Cell, Cell> bound; // name -> real (zone, offset)
+    void names_engage(size_t k, size_t n, size_t st)
+    {
+        for (size_t i = 0; i < n; i++) name_free.push_back({k, i * st});
+    }
     ~SopCase()
     {
         p.reset();
@@ -330,6 +445,79 @@ struct SopCase
     }
 };
 static std::unique_ptr<SopCase> SC;
+
+// ---- the three pool twins (pool_head, igris::pool, static_object_pool) on ONE history.  Cells are named by the
+// slot of the request that obtained them, never by address or order: the property does not fix WHICH free cell is
+// handed out, so the result line carries only null / non-null and the counters the API exposes; everything about
+// the cells themselves (in zone, cell boundary, aligned, not live, contents) is judged by the oracle per twin.
+struct TriCase
+{
+    std::unique_ptr<SopBase> sop;
+    size_t e = 0, cap = 0;
+    std::unique_ptr<exact_buf> zone[2];
+    pool_head head;
+    igris::pool ip;
+    std::map<int, std::array<char *, 3>> slots;
+    std::map<size_t, uint64_t> live[2]; // twin 0 / 1: offset -> pattern seed
+    std::set<size_t> live_sop;          // twin 2: offsets of live objects
+    uint64_t ctr = 1;
+    ~TriCase() { sop.reset(); }
+    char *zbase(int t) { return t < 2 ? (char *)zone[t]->p : sop->base(); }
+    size_t nlive(int t) { return t < 2 ? live[t].size() : live_sop.size(); }
+    // judge a cell handed out by twin t
+    void check_new(int t, char *q, out &o)
+    {
+        std::string who = t == 0 ? "pool_head" : t == 1 ? "igris::pool" : "static_object_pool";
+        if (!q)
+        {
+            if (nlive(t) != cap) o.fail(who + ": null with " + s(nlive(t)) + " of " + s(cap) + " cells live");
+            return;
+        }
+        if (nlive(t) >= cap) o.fail(who + ": non-null although all " + s(cap) + " cells are live");
+        if (q < zbase(t) || q + e > zbase(t) + cap * e)
+        {
+            o.fail(who + ": cell outside the zone");
+            return;
+        }
+        size_t off = (size_t)(q - zbase(t));
+        if (off % e) o.fail(who + ": cell not on a cell boundary");
+        if ((uintptr_t)q % 8) o.fail(who + ": cell misaligned");
+        if (t < 2)
+        {
+            if (live[t].count(off)) o.fail(who + ": cell " + s(off) + " handed out twice");
+            uint64_t sd = ctr++;
+            live[t][off] = sd;
+            for (size_t i = 0; i < e; i++) q[i] = (char)pat(sd, i);
+        }
+        else
+        {
+            if (live_sop.count(off)) o.fail(who + ": cell " + s(off) + " handed out twice");
+            if ((uintptr_t)q % sop->alT()) o.fail(who + ": object misaligned for T");
+            live_sop.insert(off);
+        }
+    }
+    void check_all(out &o)
+    {
+        for (int t = 0; t < 2; t++)
+            for (auto &kv : live[t])
+                for (size_t i = 0; i < e; i++)
+                    if ((uint8_t)zbase(t)[kv.first + i] != pat(kv.second, i))
+                    {
+                        o.fail(std::string(t ? "igris::pool" : "pool_head") + ": contents of live cell " + s(kv.first) + " changed");
+                        i = e;
+                    }
+        for (size_t off : live_sop)
+            if (!sop->intact(sop->base() + off)) o.fail("static_object_pool: contents of live object " + s(off) + " changed");
+        if (pool_avail(&head) != cap - live[0].size()) o.fail("pool_head: avail != capacity - live");
+        if (ip.avail() != cap - live[1].size() || ip.room() != cap - live[1].size()) o.fail("igris::pool: avail / room != capacity - live");
+        if (sop->avail() != cap - live_sop.size()) o.fail("static_object_pool: avail != Capacity - live");
+        for (size_t i = 0; i < cap; i++)
+            if (ip.cell_is_allocated((int)i) != (live[1].count(i * e) != 0)) o.fail("igris::pool: cell_is_allocated(" + s(i) + ") disagrees with the shadow set");
+        if (!sop_err.empty()) o.fail("static_object_pool: " + sop_err);
+        if (sop_objs.size() != live_sop.size()) o.fail("static_object_pool: constructed objects != live cells");
+    }
+};
+static std::unique_ptr<TriCase> TC;
 
 // ================================================================ heap
 struct Blk
@@ -353,7 +541,27 @@ static std::unique_ptr<HeapCase> HC;
 static size_t &hdr_of(char *p) { return ((size_t *)p)[-1]; }
 // a request that cannot be rounded up to a multiple of __WORDSIZE in a size_t: no block can satisfy it
 static bool unrepresentable(size_t n) { return n % __WORDSIZE && n > SIZE_MAX - (__WORDSIZE - n % __WORDSIZE); }
+// the request as the allocator sizes it (rounded up to __WORDSIZE, at least 8); only for representable requests
+static size_t rounded(size_t n)
+{
+    size_t len = n % __WORDSIZE ? n + (__WORDSIZE - n % __WORDSIZE) : n;
+    return len < 8 ? 8 : len;
+}
+// ADDRESS wrap-around: a chunk of `len` payload bytes whose header would sit at address `at` does not fit below the
+// top of the 64-bit address space (no block can satisfy such a request: NULL is the only admissible answer)
+static bool addr_wraps(const char *at, size_t n)
+{
+    if (unrepresentable(n)) return true;
+    size_t len = rounded(n);
+    return len > SIZE_MAX - 8 || len + 8 > SIZE_MAX - (size_t)(uintptr_t)at;
+}
+// a block the allocator handed out must lie inside the arena (checked BEFORE the harness touches it)
+static bool block_in_arena(const char *p, size_t n);
 
+static bool block_in_arena(const char *p, size_t n)
+{
+    return p >= HC->start + 8 && p <= HC->start + HC->cap && n <= (size_t)(HC->start + HC->cap - p);
+}
 static void heap_fill(Blk &b)
 {
     b.seed = HC->ctr++;
@@ -524,11 +732,32 @@ static void run_op(const std::vector<std::string> &w, const std::string &, out &
         o.result = "W=" + s(__WORDSIZE) + " szt=" + s(sizeof(size_t)) + " fl=" + s(sizeof(struct __freelist)) + " sl=" + s(sizeof(struct slist_head));
         return;
     }
+    if (op == "consts2")
+    {
+        // widths / alignments the model embeds, read out of the compiled code
+        igris::pool ip0;
+        auto it0 = ip0.begin();
+        struct __freelist fl0;
+        o.result = "int=" + s(sizeof(it0._num)) + " ptr=" + s(sizeof(void *)) + " sizemax=" + su(SIZE_MAX) + " hdr=" + s(sizeof(fl0.sz)) +
+                   " minchunk=" + s(sizeof(struct __freelist) - sizeof(size_t)) + " align=" + s(alignof(struct __freelist)) +
+                   " maxalign=" + s(alignof(max_align_t)) + " nx_off=" + s(offsetof(struct __freelist, nx));
+        if (!std::is_same<decltype(ip0.room()), size_t>::value) o.fail("room() is not size_t");
+        return;
+    }
+    if (op == "early")
+    {
+        o.result = early_report;
+        if (early_report.find("PREFIX-LOST") != std::string::npos || early_report.find("-1") != std::string::npos)
+            o.fail("allocator used before main(): " + early_report);
+        o.tag("before-main");
+        return;
+    }
     if (op == "reset")
     {
         PC.reset();
         MC.reset();
         SC.reset();
+        TC.reset();
         HC.reset();
         sop_objs.clear();
         sop_err.clear();
@@ -594,12 +823,64 @@ static void run_op(const std::vector<std::string> &w, const std::string &, out &
             o.tag(must_refuse ? "engage-refused" : "engage-child");
             return;
         }
+        if (k == "tri")
+        {
+            size_t idx = strtoul(w[2].c_str(), 0, 10);
+            if (idx >= sop_kinds.size())
+            {
+                o.result = "bad-op";
+                return;
+            }
+            TC.reset(new TriCase());
+            TC->sop.reset(sop_kinds[idx].mk());
+            TC->e = TC->sop->storage();
+            TC->cap = TC->sop->cap();
+            for (int t = 0; t < 2; t++) TC->zone[t].reset(new exact_buf(TC->e * TC->cap));
+            pool_init(&TC->head);
+            pool_engage(&TC->head, TC->zone[0]->p, TC->e * TC->cap, TC->e);
+            TC->ip.init(TC->zone[1]->p, TC->e * TC->cap, TC->e);
+            o.result = s(TC->e) + " " + s(TC->cap) + " | " + s(pool_avail(&TC->head)) + " | " + su(TC->ip.size()) + " " + su(TC->ip.room()) + " " + su(TC->ip.avail()) + " | " + s(TC->sop->avail());
+            TC->check_all(o);
+            o.tag("twins");
+            return;
+        }
+        if (k == "crit")
+        {
+            // malloc / free / realloc called from a critical context (interrupt handler): the port aborts instead of
+            // corrupting the heap under the interrupted call.  Run in a child process.
+            fflush(stdout);
+            pid_t pid = fork();
+            if (pid == 0)
+            {
+                int nul = open("/dev/null", O_RDWR);
+                dup2(nul, 0);
+                dup2(nul, 1);
+                dup2(nul, 2);
+                __malloc_heap_start = _heap_start;
+                __malloc_heap_end = nullptr;
+                __brkval = nullptr;
+                __flp = nullptr;
+                __allocation_counter = 0;
+                void *q = igv_malloc(8);
+                crit_level = 1;
+                if (w[2] == "m") q = igv_malloc(8);
+                else if (w[2] == "f") igv_free(q);
+                else q = igv_realloc(q, 100);
+                _exit(q ? 0 : 1);
+            }
+            int status = 0;
+            waitpid(pid, &status, 0);
+            o.result = WIFSIGNALED(status) && WTERMSIG(status) == SIGABRT ? "abort" : WIFSIGNALED(status) ? "signal " + s(WTERMSIG(status)) : "returned";
+            o.tag("critical-context");
+            return;
+        }
         if (k == "mpool")
         {
             MC.reset(new MPoolCase());
             pool_init(&MC->head);
             o.result = "ok " + s(pool_avail(&MC->head));
             if (pool_alloc(&MC->head) != nullptr) o.fail("pool without a zone hands out a cell");
+            if (slist_pop_first(&MC->head.free_blocks) != nullptr || !slist_empty(&MC->head.free_blocks)) o.fail("slist_pop_first on an empty list");
             return;
         }
         if (k == "ipool0")
@@ -620,6 +901,7 @@ static void run_op(const std::vector<std::string> &w, const std::string &, out &
             PC->e = strtoul(w[2].c_str(), 0, 10);
             PC->cap = strtoul(w[3].c_str(), 0, 10);
             PC->zone.reset(new exact_buf(PC->e * PC->cap));
+            PC->names_init();
             PC->is_ip = k == "ipool";
             if (PC->is_ip)
             {
@@ -655,6 +937,7 @@ static void run_op(const std::vector<std::string> &w, const std::string &, out &
                 return;
             }
             SC->cap = cap;
+            SC->names_engage(0, cap, SC->p->storage());
             o.result = s(SC->p->storage()) + " " + s(SC->p->avail());
             if (SC->p->avail() != cap) o.fail("fresh object pool: avail != Capacity");
             if ((uintptr_t)SC->p->base() % std::max(al, (size_t)8)) o.fail("storage misaligned for T");
@@ -678,6 +961,10 @@ static void run_op(const std::vector<std::string> &w, const std::string &, out &
                 HC->start = _heap_start;
                 HC->cap = STATIC_ARENA;
             }
+            // the model assumes an arena address in [2^32, 2^47) (requests are generated so that their verdict is the
+            // same for every base in that range)
+            if ((uintptr_t)HC->start < (1ull << 32) || (uintptr_t)HC->start + HC->cap >= (1ull << 47)) o.fail("arena address outside [2^32, 2^47): the model's address assumption does not hold on this host");
+            if ((uintptr_t)HC->start % 8) o.fail("arena start not 8-aligned");
             A = (w.size() > 3 && w[3] == "rel") ? &API_REL : &API_DBG;
             if (A == &API_REL) o.tag("release-build");
             *A->heap_start = HC->start;
@@ -692,6 +979,60 @@ static void run_op(const std::vector<std::string> &w, const std::string &, out &
         o.result = "bad-op";
         return;
     }
+    // ------------------------------------------------ the three twins on one history
+    if (TC)
+    {
+        long c0 = sop_ctor_runs, d0 = sop_dtor_runs;
+        std::string r[3] = {"-", "-", "-"};
+        if (op == "a")
+        {
+            int slot = atoi(w[1].c_str());
+            std::array<char *, 3> q = {(char *)pool_alloc(&TC->head), (char *)TC->ip.get(), (char *)TC->sop->create()};
+            for (int t = 0; t < 3; t++)
+            {
+                TC->check_new(t, q[t], o);
+                r[t] = q[t] ? "cell" : "null";
+            }
+            if ((q[2] != nullptr) != (sop_ctor_runs == c0 + 1) || sop_dtor_runs != d0) o.fail("static_object_pool: create must run the constructor exactly once iff it returns an object");
+            if (!((q[0] == nullptr) == (q[1] == nullptr) && (q[1] == nullptr) == (q[2] == nullptr))) o.fail("twins with equal capacity and equal history disagree on exhaustion");
+            TC->slots[slot] = q;
+            o.tag(q[0] ? "twins-alloc" : "twins-null");
+        }
+        else if (op == "f")
+        {
+            int slot = atoi(w[1].c_str());
+            auto it = TC->slots.find(slot);
+            std::array<char *, 3> q = {nullptr, nullptr, nullptr};
+            if (it != TC->slots.end())
+            {
+                q = it->second;
+                TC->slots.erase(it);
+            }
+            if (q[0])
+            {
+                TC->live[0].erase((size_t)(q[0] - TC->zbase(0)));
+                pool_free(&TC->head, q[0]);
+            }
+            if (q[1]) TC->live[1].erase((size_t)(q[1] - TC->zbase(1)));
+            TC->ip.put(q[1]); // put(NULL) is a no-op
+            if (q[2])
+            {
+                TC->live_sop.erase((size_t)(q[2] - TC->zbase(2)));
+                TC->sop->destroy(q[2]);
+                if (sop_dtor_runs != d0 + 1 || sop_ctor_runs != c0) o.fail("static_object_pool: destroy must run the destructor exactly once");
+            }
+            o.tag(q[0] ? "twins-free" : "twins-free-null");
+        }
+        else
+        {
+            o.result = "bad-op";
+            return;
+        }
+        o.result = r[0] + " " + s(pool_avail(&TC->head)) + " | " + r[1] + " " + su(TC->ip.room()) + " " + su(TC->ip.avail()) + " | " + r[2] + " " + s(TC->sop->avail()) + " " +
+                   s(sop_objs.size()) + " " + s(sop_ctor_runs) + " " + s(sop_dtor_runs);
+        TC->check_all(o);
+        return;
+    }
     // ------------------------------------------------ pool fed from several zones
     if (MC)
     {
@@ -701,6 +1042,7 @@ static void run_op(const std::vector<std::string> &w, const std::string &, out &
             size_t before = pool_avail(&MC->head);
             MC->zones.push_back(MZone{std::unique_ptr<exact_buf>(new exact_buf(n * e)), n, e});
             pool_engage(&MC->head, MC->zones.back().buf->p, n * e, e);
+            MC->names_engage(MC->zones.size() - 1, n, e);
             MC->cap += n;
             o.result = s(pool_avail(&MC->head));
             if (pool_avail(&MC->head) != before + n) o.fail("pool_engage of " + s(n) + " cells: avail " + s(before) + " -> " + s(pool_avail(&MC->head)));
@@ -710,13 +1052,23 @@ static void run_op(const std::vector<std::string> &w, const std::string &, out &
         else if (op == "a")
         {
             void *q = pool_alloc(&MC->head);
-            o.result = MC->name(q) + " " + s(pool_avail(&MC->head));
+            long zk = q ? MC->zone_of(q) : -1;
+            o.result = (!q ? std::string("null") : zk < 0 ? std::string("outside") : MC->name_alloc({(size_t)zk, (size_t)((uint8_t *)q - MC->zones[(size_t)zk].buf->p)})) + " " + s(pool_avail(&MC->head));
             MC->check_new(q, o);
             o.tag(q ? (MC->zones.size() > 1 ? "alloc-multizone" : "alloc") : "alloc-null");
         }
         else if (op == "f")
         {
-            size_t k = strtoul(w[1].c_str(), 0, 10), off = strtoul(w[2].c_str(), 0, 10);
+            MPoolCase::Cell nm{strtoul(w[1].c_str(), 0, 10), strtoul(w[2].c_str(), 0, 10)}, real;
+            if (!MC->bound.count(nm) || !MC->real_of(nm, real))
+            {
+                o.result = "skip";
+                o.fail("history cannot continue: cell " + w[1] + ":" + w[2] + " was never handed out");
+                return;
+            }
+            MC->bound.erase(nm);
+            MC->name_free.push_back(nm);
+            size_t k = real.first, off = real.second;
             MC->live.erase({k, off});
             pool_free(&MC->head, MC->zones[k].buf->p + off);
             o.result = s(pool_avail(&MC->head));
@@ -724,7 +1076,9 @@ static void run_op(const std::vector<std::string> &w, const std::string &, out &
         }
         else if (op == "in")
         {
-            size_t k = strtoul(w[1].c_str(), 0, 10), off = strtoul(w[2].c_str(), 0, 10);
+            MPoolCase::Cell nm{strtoul(w[1].c_str(), 0, 10), strtoul(w[2].c_str(), 0, 10)}, real;
+            if (!MC->real_of(nm, real)) real = nm;
+            size_t k = real.first, off = real.second;
             int r = pool_in_freelist(&MC->head, MC->zones[k].buf->p + off);
             o.result = r ? "1" : "0";
             if ((r != 0) == (MC->live.count({k, off}) != 0)) o.fail("pool_in_freelist disagrees with the shadow map");
@@ -746,13 +1100,20 @@ static void run_op(const std::vector<std::string> &w, const std::string &, out &
         if (op == "a")
         {
             void *q = pool_alloc(&PC->head);
-            o.result = (q ? s((uint8_t *)q - PC->zone->p) : std::string("null")) + " " + s(pool_avail(&PC->head));
+            o.result = (q ? PC->name_alloc((size_t)((uint8_t *)q - PC->zone->p)) : std::string("null")) + " " + s(pool_avail(&PC->head));
             PC->check_new(q, o);
             o.tag(q ? "alloc" : "alloc-null");
         }
         else if (op == "f")
         {
-            size_t off = strtoul(w[1].c_str(), 0, 10);
+            size_t nm = strtoul(w[1].c_str(), 0, 10), off = 0;
+            if (!PC->bound.count(nm) || !PC->real_of(nm, off))
+            {
+                o.result = "skip";
+                o.fail("history cannot continue: cell " + s(nm) + " was never handed out");
+                return;
+            }
+            PC->name_release(nm);
             PC->live.erase(off);
             pool_free(&PC->head, PC->zone->p + off);
             o.result = s(pool_avail(&PC->head));
@@ -760,7 +1121,8 @@ static void run_op(const std::vector<std::string> &w, const std::string &, out &
         }
         else if (op == "in")
         {
-            size_t off = strtoul(w[1].c_str(), 0, 10);
+            size_t nm = strtoul(w[1].c_str(), 0, 10), off = 0;
+            if (!PC->real_of(nm, off)) off = nm;
             int r = pool_in_freelist(&PC->head, PC->zone->p + off);
             o.result = r ? "1" : "0";
             if ((r != 0) == (PC->live.count(off) != 0)) o.fail("pool_in_freelist disagrees with the shadow map");
@@ -777,7 +1139,7 @@ static void run_op(const std::vector<std::string> &w, const std::string &, out &
         if (op == "g")
         {
             void *q = ip.get();
-            o.result = (q ? s((uint8_t *)q - PC->zone->p) : std::string("null")) + " " + su(ip.room()) + " " + su(ip.avail());
+            o.result = (q ? PC->name_alloc((size_t)((uint8_t *)q - PC->zone->p)) : std::string("null")) + " " + su(ip.room()) + " " + su(ip.avail());
             PC->check_new(q, o);
             o.tag(q ? "get" : "get-null");
         }
@@ -790,7 +1152,14 @@ static void run_op(const std::vector<std::string> &w, const std::string &, out &
             }
             else
             {
-                size_t off = strtoul(w[1].c_str(), 0, 10);
+                size_t nm = strtoul(w[1].c_str(), 0, 10), off = 0;
+                if (!PC->bound.count(nm) || !PC->real_of(nm, off))
+                {
+                    o.result = "skip";
+                    o.fail("history cannot continue: cell " + s(nm) + " was never handed out");
+                    return;
+                }
+                PC->name_release(nm);
                 PC->live.erase(off);
                 ip.put(PC->zone->p + off);
                 o.tag("put");
@@ -800,10 +1169,28 @@ static void run_op(const std::vector<std::string> &w, const std::string &, out &
         else if (op == "ca")
         {
             long i = strtol(w[1].c_str(), 0, 10);
+            // an index inside the pool names a cell (see NAMES): ask about the real cell behind the name
+            size_t off = 0;
+            if (i >= 0 && (size_t)i < PC->cap && PC->real_of((size_t)i * PC->e, off)) i = (long)(off / PC->e);
             bool r = ip.cell_is_allocated((int)i);
             o.result = r ? "1" : "0";
             bool ref = i >= 0 && (size_t)i < PC->cap && PC->live.count((size_t)i * PC->e);
             if (r != ref) o.fail("cell_is_allocated(" + s(i) + ") disagrees with the shadow map");
+        }
+        else if (op == "ri")
+        {
+            // init() again on the SAME object with another zone, element size and capacity, whatever its state
+            // (cells handed out, cells on the list): it must become a fresh pool over the new zone
+            PC->old_zones.push_back(std::move(PC->zone));
+            PC->e = strtoul(w[1].c_str(), 0, 10);
+            PC->cap = strtoul(w[2].c_str(), 0, 10);
+            PC->zone.reset(new exact_buf(PC->e * PC->cap));
+            PC->live.clear();
+            PC->names_init();
+            ip.init(PC->zone->p, PC->e * PC->cap, PC->e);
+            o.result = su(ip.size()) + " " + su(ip.room()) + " " + su(ip.avail());
+            if (ip.size() != PC->cap || ip.room() != PC->cap || ip.avail() != PC->cap || ip.element_size() != PC->e) o.fail("re-initialised pool does not report its new capacity / element size");
+            o.tag("re-init");
         }
         else if (op == "sz")
         {
@@ -816,9 +1203,16 @@ static void run_op(const std::vector<std::string> &w, const std::string &, out &
             std::vector<size_t> seen;
             size_t steps = 0;
             for (auto it = ip.begin(); it != ip.end() && steps <= PC->cap; ++it, ++steps)
-            {
-                o.result += " " + s(it._num);
                 seen.push_back((size_t)((uint8_t *)*it - PC->zone->p));
+            // result line: the NAMES of the visited cells in ascending order (the ascending order of the real
+            // visit and its completeness are judged just below against the shadow map)
+            {
+                std::map<size_t, size_t> name_of;
+                for (auto &kv : PC->bound) name_of[kv.second] = kv.first;
+                std::vector<size_t> names;
+                for (size_t off : seen) names.push_back(name_of.count(off) ? name_of[off] / PC->e : 1000000 + off);
+                std::sort(names.begin(), names.end());
+                for (size_t nmi : names) o.result += " " + s(nmi);
             }
             std::vector<size_t> ref;
             for (auto &kv : PC->live) ref.push_back(kv.first);
@@ -852,7 +1246,14 @@ static void run_op(const std::vector<std::string> &w, const std::string &, out &
                 if (SC->live.size() >= SC->cap) o.fail("non-null although Capacity objects are live");
                 if (sop_ctor_runs != c0 + 1 || sop_last_ctor != q) o.fail("create: the constructor did not run exactly once on the returned cell");
                 if (k >= 0) SC->live.insert({(size_t)k, off});
-                o.result = k <= 0 ? s(off) : s(k) + ":" + s(off);
+                if (k < 0 || SC->name_free.empty()) o.result = "?" + s(k) + ":" + s(off);
+                else
+                {
+                    SopCase::Cell nm = SC->name_free.back();
+                    SC->name_free.pop_back();
+                    SC->bound[nm] = {(size_t)k, off};
+                    o.result = nm.first == 0 ? s(nm.second) : s(nm.first) + ":" + s(nm.second);
+                }
                 o.tag(k > 0 ? "create-in-extra-zone" : "create");
             }
             else
@@ -866,8 +1267,17 @@ static void run_op(const std::vector<std::string> &w, const std::string &, out &
         }
         else if (op == "d")
         {
-            size_t k = w.size() > 2 ? strtoul(w[1].c_str(), 0, 10) : 0;
-            size_t off = strtoul(w[w.size() > 2 ? 2 : 1].c_str(), 0, 10);
+            SopCase::Cell nm{w.size() > 2 ? strtoul(w[1].c_str(), 0, 10) : 0, strtoul(w[w.size() > 2 ? 2 : 1].c_str(), 0, 10)};
+            auto itb = SC->bound.find(nm);
+            if (itb == SC->bound.end())
+            {
+                o.result = "skip";
+                o.fail("history cannot continue: this object was never created");
+                return;
+            }
+            size_t k = itb->second.first, off = itb->second.second;
+            SC->bound.erase(itb);
+            SC->name_free.push_back(nm);
             SC->live.erase({k, off});
             void *q = SC->zbase(k) + off;
             p.destroy(q);
@@ -884,6 +1294,7 @@ static void run_op(const std::vector<std::string> &w, const std::string &, out &
             SC->extra.push_back({z, n});
             size_t before = p.avail();
             p.engage(z, n);
+            SC->names_engage(SC->extra.size(), n, p.storage());
             SC->cap += n;
             o.result = s(p.avail());
             if (p.avail() != before + n) o.fail("pool_engage(freelist(), " + s(n) + " cells): avail " + s(before) + " -> " + s(p.avail()));
@@ -918,9 +1329,18 @@ static void run_op(const std::vector<std::string> &w, const std::string &, out &
         {
             slot = atoi(w[1].c_str());
             size_t n = strtoul(w[2].c_str(), 0, 10);
+            const char *brk_addr = BRK ? BRK : HC->start;
+            bool was_empty = HC->live.empty();
             SW.begin(nullptr);
             char *p = (char *)A->malloc_(n);
             SW.end(o);
+            if (p && !block_in_arena(p, n))
+            {
+                // judged before the harness touches the block: it cannot be filled, the case ends here
+                o.fail("malloc(" + su(n) + ") returned a block that is not inside the arena [start, start + " + su(HC->cap) + ")");
+                o.result = "ret=outside";
+                return;
+            }
             if (p)
             {
                 Blk b{p, n, 0, hdr_of(p)};
@@ -936,9 +1356,16 @@ static void run_op(const std::vector<std::string> &w, const std::string &, out &
             else
             {
                 ret = "null";
-                if (!HC->lim && !unrepresentable(n)) o.fail("malloc returned NULL without a heap limit");
+                // without a heap end NULL is admissible only for a request no block can satisfy: its rounding wraps
+                // around SIZE_MAX, or the new chunk would reach across the top of the address space
+                if (!HC->lim && !addr_wraps(brk_addr, n)) o.fail("malloc returned NULL without a heap limit");
+                // "memory is not lost": on a heap without live blocks the whole arena is available again
+                if (HC->lim && was_empty && !unrepresentable(n) && rounded(n) <= HC->lim - 8 && HC->lim >= 8)
+                    o.fail("malloc(" + su(n) + ") failed on a heap without live blocks although " + su(HC->lim) + " bytes are configured");
                 o.tag("malloc-null");
+                if (!HC->lim && !unrepresentable(n)) o.tag("address-wrap-refused");
             }
+            if (p && was_empty && HC->lim && rounded(n) + 8 + 64 > HC->lim) o.tag("maximal-alloc-on-empty-heap");
             if (unrepresentable(n)) o.tag("request-rounding-wraps");
             if (p)
             {
@@ -949,6 +1376,24 @@ static void run_op(const std::vector<std::string> &w, const std::string &, out &
                 else o.tag("malloc-split");
             }
             if (n == 0) o.tag("size0");
+        }
+        else if (op == "mx")
+        {
+            // probe of finding C10-heap-arena-unbounded-by-default: a request larger than what is left of the arena,
+            // no heap end configured.  Judged without touching the block, which is released at once.
+            size_t n = strtoul(w[2].c_str(), 0, 10);
+            char *p = (char *)A->malloc_(n);
+            if (p && !block_in_arena(p, n)) o.fail("malloc(" + su(n) + ") returned a block that reaches " + su((size_t)(p - HC->start) + n - HC->cap) + " bytes behind the arena (no heap end configured: the break is unbounded)");
+            if (p) A->free_(p);
+            o.tag("probe-unbounded");
+        }
+        else if (op == "al")
+        {
+            // probe of finding C10-heap-align-max-align-t: is the payload aligned for max_align_t?
+            auto it = HC->live.find(atoi(w[1].c_str()));
+            if (it != HC->live.end() && (uintptr_t)it->second.p % alignof(max_align_t))
+                o.fail("payload at offset " + s(it->second.p - HC->start) + " is not aligned for max_align_t (" + s(alignof(max_align_t)) + ")");
+            o.tag("probe-maxalign");
         }
         else if (op == "f")
         {
@@ -986,10 +1431,17 @@ static void run_op(const std::vector<std::string> &w, const std::string &, out &
             auto it = HC->live.find(slot);
             if (it == HC->live.end())
             {
+                const char *brk_addr = BRK ? BRK : HC->start;
                 SW.begin(nullptr);
                 char *p = (char *)A->realloc_(nullptr, n);
                 SW.end(o);
                 o.tag("realloc-null-ptr");
+                if (p && !block_in_arena(p, n))
+                {
+                    o.fail("realloc(NULL, " + su(n) + ") returned a block that is not inside the arena");
+                    o.result = "ret=outside";
+                    return;
+                }
                 if (p)
                 {
                     Blk b{p, n, 0, hdr_of(p)};
@@ -1005,7 +1457,8 @@ static void run_op(const std::vector<std::string> &w, const std::string &, out &
                 else
                 {
                     ret = "null";
-                    if (!HC->lim && !unrepresentable(n)) o.fail("realloc(NULL, n) returned NULL without a heap limit");
+                    if (!HC->lim && !addr_wraps(brk_addr, n)) o.fail("realloc(NULL, n) returned NULL without a heap limit");
+                    if (!HC->lim && !unrepresentable(n)) o.tag("address-wrap-refused");
                 }
                 if (unrepresentable(n)) o.tag("request-rounding-wraps");
             }
@@ -1017,9 +1470,16 @@ static void run_op(const std::vector<std::string> &w, const std::string &, out &
                 std::vector<char> copy(old.p, old.p + old.n);
                 HC->live.erase(it);
                 // while realloc runs, the old block is still owned by the caller
+                const char *brk_addr = BRK ? BRK : HC->start;
                 SW.begin(old.p);
                 char *p = (char *)A->realloc_(old.p, n);
                 SW.end(o);
+                if (p && !block_in_arena(p, n))
+                {
+                    o.fail("realloc(p, " + su(n) + ") returned a block that is not inside the arena");
+                    o.result = "ret=outside";
+                    return;
+                }
                 if (p)
                 {
                     size_t keep = std::min(old.n, n);
@@ -1043,8 +1503,10 @@ static void run_op(const std::vector<std::string> &w, const std::string &, out &
                 else
                 {
                     ret = "null";
-                    if (!HC->lim && !unrepresentable(n)) o.fail("realloc returned NULL without a heap limit");
+                    // NULL without a heap end: only when ptr + len or the moved chunk would cross the top of the address space
+                    if (!HC->lim && !addr_wraps(old.p - 8, n) && !addr_wraps(brk_addr, n)) o.fail("realloc returned NULL without a heap limit");
                     if (unrepresentable(n)) o.tag("request-rounding-wraps");
+                    else if (!HC->lim) o.tag("address-wrap-refused");
                     // the old block must still be there, untouched
                     std::string why;
                     if (!heap_intact(old, old.n, old.p, why)) o.fail("failed realloc damaged the old block at " + why);
@@ -1413,6 +1875,95 @@ static void gen_heap_huge(rng &r, int ncases)
     }
 }
 
+// ADDRESS wrap-around without a heap end: requests so large that the new chunk (malloc step 3, the move path of
+// realloc) or `ptr + len` (realloc) would cross the top of the 64-bit address space.  All must be refused with the
+// heap unchanged; the history then goes on (a wrapped break would make later blocks overlap live ones).
+// Sizes are >= 2^64 - 2^32: the verdict is the same for every arena address in [2^32, 2^47).
+static void gen_heap_addrwrap(rng &r, int ncases)
+{
+    auto wrapsz = [&]() -> size_t {
+        unsigned k = (unsigned)r.below(5);
+        if (k == 0) return SIZE_MAX - 63 - 64 * (size_t)r.below(4);          // the largest representable requests
+        if (k == 1) return SIZE_MAX - 63 - 64 * (size_t)r.below(1u << 20);
+        if (k == 2) return SIZE_MAX - (size_t)r.below(1ull << 31);             // any residue (most need rounding)
+        if (k == 3) return SIZE_MAX - 63 - 8;                                   // rounds to SIZE_MAX - 63
+        return SIZE_MAX - (1ull << 32) + 1 + (size_t)r.below(1ull << 31);
+    };
+    for (int c = 0; c < ncases; c++)
+    {
+        printf("reset heap 0%s\n", c % 4 == 3 ? " rel" : "");
+        HGen g(r, 90);
+        for (int i = 0, n = (int)r.range(0, 5); i < n; i++) g.m(pick_size(r));
+        if (g.live.size() > 1 && r.chance(60)) g.f_at((size_t)r.below(g.live.size() - 1)); // a free chunk: step 1/2 cannot serve the request
+        for (int i = 0, n = (int)r.range(2, 7); i < n; i++)
+        {
+            unsigned k = (unsigned)r.below(4);
+            if (k == 0) printf("m %d %zu\n", 2000 + i, wrapsz());              // refused: slot stays empty
+            else if (k == 1 && !g.live.empty()) g.rr((size_t)r.below(g.live.size()), wrapsz()); // ptr + len wraps
+            else if (k == 2) printf("r %d %zu\n", 3000 + i, wrapsz());         // realloc(NULL, huge)
+            else g.m(pick_size(r));
+            if (r.chance(40)) g.m(pick_size(r));
+            if (r.chance(25) && g.live.size() > 1) g.f_at((size_t)r.below(g.live.size()));
+        }
+        for (int i = 0; i < 7; i++) printf("f %d\nf %d\n", 2000 + i, 3000 + i);
+        g.free_all((int)r.below(3));
+    }
+}
+
+// "memory is not lost": in an arena with a heap end, after ANY history whose blocks are all freed in ANY order the
+// heap is back in its initial state, so the largest request the arena can hold succeeds again (and one word more fails)
+static void gen_heap_maxalloc(rng &r, int ncases)
+{
+    for (int c = 0; c < ncases; c++)
+    {
+        size_t lim = 72 + 64 * (size_t)r.range(1, 60) + (c % 3 == 0 ? (size_t)r.below(64) : 0);
+        printf("reset heap %zu\n", lim);
+        HGen g(r, 90);
+        size_t maxreq = (lim - 8) / 64 * 64;
+        if (c % 5 == 0) printf("m 900 %zu\nf 900\n", maxreq);
+        for (int i = 0, n = (int)r.range(3, 40); i < n; i++)
+        {
+            unsigned k = (unsigned)r.below(100);
+            if (g.live.empty() || (k < 50 && (int)g.live.size() < g.max_live)) g.m((size_t)r.below(lim / 4 + 2));
+            else if (k < 80) g.f_at((size_t)r.below(g.live.size()));
+            else g.rr((size_t)r.below(g.live.size()), (size_t)r.below(lim / 3 + 2));
+        }
+        // slots whose malloc failed are NULL for the harness: free(NULL)
+        {
+            // sizes around 2^16 / 2^31 / 2^32: far beyond the arena, must fail cleanly (a narrowed size computation would not)
+            static const std::vector<size_t> wide = {65535, 65536, 65537, 2147483647ull, 2147483648ull, 4294967295ull, 4294967296ull, 4294967297ull, 4294967304ull, 4294967360ull};
+            size_t w1 = r.pick(wide), w2 = r.pick(wide);
+            if (w1 + 8 > lim) printf("m 904 %zu\nf 904\n", w1);
+            if (w2 + 8 > lim && !g.live.empty()) g.rr((size_t)r.below(g.live.size()), w2);
+        }
+        g.free_all(c % 3);
+        printf("m 901 %zu\n", maxreq + 1 + (size_t)r.below(64)); // one word too many: NULL, nothing changes
+        printf("m 902 %zu\n", maxreq - (size_t)r.below(64));     // the maximal request: must succeed
+        printf("r 902 %zu\nr 902 %zu\nf 902\nf 901\n", (size_t)r.below(maxreq + 1), maxreq);
+        printf("m 903 %zu\nf 903\n", maxreq);
+    }
+}
+
+// long inputs / boundary sizes: blocks of 255..257, 65535..65537 and >= 300 KiB bytes (the move path copies them),
+// in the 1 MiB static arena
+static void gen_heap_big(rng &r, int ncases)
+{
+    static const std::vector<size_t> big = {255, 256, 257, 4095, 4096, 4097, 65535, 65536, 65537, 307200, 310000};
+    for (int c = 0; c < ncases; c++)
+    {
+        printf("reset heap 0%s\n", c % 2 ? " rel" : "");
+        HGen g(r, 90);
+        size_t a = big[(size_t)c % big.size()];
+        g.m(a);
+        g.m(r.pick(big) % 70000);
+        g.rr(0, a + (size_t)r.range(1, 70000)); // blocked by the block above: malloc + memcpy of `a` bytes + free
+        g.m(a / 2);                              // reuses the hole (split)
+        g.rr(0, a);                              // shrink-split of the moved block
+        if (c % 3 == 0) g.rr(0, 307200 + (size_t)r.below(1000));
+        g.free_all((int)r.below(3));
+    }
+}
+
 // every history of exactly `depth` requests over the size alphabet `al`,
 // followed by the release of whatever is still live (ascending or descending)
 static long gen_heap_exhaustive(const std::vector<size_t> &al, int depth, bool with_realloc, long part, long nparts)
@@ -1526,6 +2077,76 @@ static void gen_pool_case(rng &r, bool ip, size_t e, size_t cap)
     probes();
 }
 
+// one igris::pool object initialised again and again with other zones / element sizes / capacities, each time in
+// a different state (exhausted, partly handed out, everything returned)
+static void gen_ipool_reinit(rng &r)
+{
+    size_t e = 8 * (size_t)r.range(1, 8), cap = (size_t)r.range(1, 20);
+    printf("reset ipool %zu %zu\n", e, cap);
+    for (int round = 0; round < 4; round++)
+    {
+        std::vector<size_t> freel, live;
+        for (size_t i = 0; i < cap; i++) freel.push_back(i * e);
+        size_t want = round == 0 ? cap + 1 : (size_t)r.below(cap + 2);
+        for (size_t i = 0; i < want; i++)
+        {
+            puts("g");
+            if (!freel.empty())
+            {
+                live.push_back(freel.back());
+                freel.pop_back();
+            }
+        }
+        for (size_t i = 0, n = r.below(live.size() + 1); i < n; i++)
+        {
+            size_t j = (size_t)r.below(live.size());
+            printf("p %zu\n", live[j]);
+            freel.push_back(live[j]);
+            live.erase(live.begin() + j);
+        }
+        puts("it");
+        e = 8 * (size_t)r.range(1, 8);
+        cap = (size_t)r.range(1, 20);
+        printf("ri %zu %zu\nsz\n", e, cap);
+    }
+    for (size_t i = 0; i < cap + 1; i++) puts("g");
+    puts("it");
+}
+
+// realloc in every neighbour configuration: blocks A B C [D]; B is reallocated with the chunk below (A) and / or
+// above (C) free, with C a guard, or with B the topmost chunk; growth by less than / exactly / more than what the
+// free neighbour above offers, and shrinks; then everything is released in a random order
+static void gen_heap_neighbours(rng &r, int ncases)
+{
+    static const std::vector<size_t> szs = {0, 64, 128, 192, 256};
+    for (int c = 0; c < ncases; c++)
+    {
+        size_t lim = c % 11 == 10 ? (size_t)r.range(900, 3000) : 0;
+        printf("reset heap %zu\n", lim);
+        HGen g(r, 90);
+        int cfgi = c % 8; // bit 0: A free, bit 1: C free, bit 2: no guard D (C or B ends at the break)
+        size_t a = r.pick(szs), b = r.pick(szs), cc = r.pick(szs);
+        if (r.chance(50)) g.m(r.pick(szs)); // something below A
+        int A = g.next_slot; g.m(a);
+        int B = g.next_slot; g.m(b);
+        int C = -1;
+        bool top = (cfgi & 4) && r.chance(50); // B itself is the topmost chunk
+        if (!top) { C = g.next_slot; g.m(cc); }
+        if (!(cfgi & 4)) g.m(r.pick(szs)); // guard D
+        auto idx = [&](int slot) -> size_t { for (size_t i = 0; i < g.live.size(); i++) if (g.live[i] == slot) return i; return 0; };
+        if (cfgi & 1) g.f_at(idx(A));
+        if ((cfgi & 2) && C >= 0) g.f_at(idx(C));
+        size_t cur = b < 8 ? 8 : b, room = (cfgi & 2) && C >= 0 ? (cc < 8 ? 8 : cc) + 8 : 0;
+        for (int i = 0, n = (int)r.range(1, 4); i < n; i++)
+        {
+            unsigned k = (unsigned)r.below(6);
+            size_t want = k == 0 ? cur + room : k == 1 ? cur + room + 1 : k == 2 ? (cur + room >= 8 ? cur + room - 8 : 0) : k == 3 ? cur / 2 : k == 4 ? cur + 64 : (size_t)r.below(400);
+            g.rr(idx(B), want);
+        }
+        g.free_all((int)r.below(3));
+    }
+}
+
 // one pool_head, 1..4 zones of different sizes engaged at arbitrary points of the history
 // (shape 0: random; 1: all zones back to back, then exhaust; 2: exhaust, engage onto the drained pool,
 //  free some, engage onto a non-empty list; 3: alloc/free a little, then engage), interleaved with alloc/free.
@@ -1633,6 +2254,37 @@ static void gen_mpool_case(rng &r, int shape, bool mixed_elemsz)
     probe();
 }
 
+// the three twins on one history, cells named by request slots (no assumption on which cell is handed out)
+static void gen_tri_case(rng &r, size_t idx)
+{
+    size_t cap = sop_kinds[idx].cap;
+    printf("reset tri %zu\n", idx);
+    std::vector<int> live;
+    int next = 0;
+    auto alloc = [&]() {
+        printf("a %d\n", next);
+        if (live.size() < cap) live.push_back(next);
+        next++;
+    };
+    auto rel = [&](size_t i) {
+        printf("f %d\n", live[i]);
+        live.erase(live.begin() + i);
+    };
+    for (size_t i = 0; i < cap + 2; i++) alloc(); // exactly the capacity, then null twice
+    printf("f %d\n", next - 1);                   // a slot that holds NULL
+    int order = (int)r.below(3);
+    size_t keep = r.below(live.size() + 1);
+    while (live.size() > keep) rel(order == 0 ? live.size() - 1 : order == 1 ? 0 : (size_t)r.below(live.size()));
+    for (int i = 0, n = (int)r.range(5, 40); i < n; i++)
+    {
+        if (live.empty() || r.chance(55)) alloc();
+        else rel((size_t)r.below(live.size()));
+    }
+    while (!live.empty()) rel((size_t)r.below(live.size()));
+    for (size_t i = 0; i < cap + 1; i++) alloc();
+    while (!live.empty()) rel(live.size() - 1); // destroy everything: the harness deletes the pool afterwards
+}
+
 static void gen_sop_case(rng &r, const SopKind &k, bool extra_zones = false)
 {
     printf("reset sop %zu %zu %zu\n", k.sz, k.al, k.cap);
@@ -1683,6 +2335,9 @@ static void gen(rng &r, const std::string &tier)
 {
     bool th = tier == "thorough";
     puts("consts");
+    puts("consts2");
+    puts("early");
+    puts("reset crit m\nreset crit f\nreset crit r");
     // ---- pools: element sizes 8..64, capacities 1..33
     for (size_t cap = 1; cap <= 33; cap++)
         for (size_t k = 1; k <= 8; k++)
@@ -1695,6 +2350,11 @@ static void gen(rng &r, const std::string &tier)
     {
         gen_pool_case(r, i % 2, 8 * (size_t)r.range(1, 8), (size_t)r.range(1, 33));
     }
+    // capacities around 2^8 (igris::pool: `int _count`, iterator index `int _num`), and one pool of 2^16 + 1 cells
+    for (size_t cap : {255, 256, 257})
+        if (th || cap == 255 + g_seed % 3) gen_pool_case(r, true, 8, cap);
+    if (th) gen_pool_case(r, false, 8, 256);
+    puts("reset ipool 8 65537\nsz\ng\ng\nca 65536\nca 65535\nca 65537\nca 0\np 524288\ng\np 524288\np 524280\nsz");
     // element sizes that are not a multiple of the pointer size (the link is then stored
     // misaligned, which the host tolerates): arena and capacity clauses still apply
     for (size_t e : {12, 20, 28, 36, 44})
@@ -1706,6 +2366,7 @@ static void gen(rng &r, const std::string &tier)
         for (size_t size : {8, 16, 28})
             if (th || (e + size + g_seed) % 3 == 0) printf("reset poolx %zu %zu\n", e, size);
     puts("reset poolx 16 40\nreset poolx 24 100\nreset poolx 8 64\nreset poolx 16 48\nreset poolx 9 27\nreset poolx 8 0");
+    for (int i = 0; i < (th ? 40 : 6); i++) gen_ipool_reinit(r);
     // a default-constructed igris::pool (no zone): every query must answer "empty"
     puts("reset ipool0\ng\nsz\nca 0\nit\np null\ng\nca -1\nsz");
     for (auto &k : sop_kinds)
@@ -1713,6 +2374,9 @@ static void gen(rng &r, const std::string &tier)
     // object pools extended by further zones through freelist()
     for (auto &k : sop_kinds)
         for (int i = 0; i < (th ? 4 : 1); i++) gen_sop_case(r, k, true);
+    // ---- pool_head, igris::pool and static_object_pool on the same histories
+    for (size_t idx = 0; idx < sop_kinds.size(); idx++)
+        for (int i = 0; i < (th ? 6 : 1); i++) gen_tri_case(r, idx);
     // ---- one pool fed from 1..4 zones engaged at arbitrary points of the history
     for (int i = 0; i < (th ? 1200 : 160); i++) gen_mpool_case(r, i % 4, i % 5 == 4);
     // ---- heap: exhaustive short histories over a 4-size alphabet
@@ -1740,6 +2404,22 @@ static void gen(rng &r, const std::string &tier)
     gen_heap_targeted(r, th ? 3000 : 360);
     gen_heap_huge(r, th ? 200 : 40);
     gen_heap_brim(r, th ? 360 : 72);
+    gen_heap_neighbours(r, th ? 1600 : 240);
+    gen_heap_addrwrap(r, th ? 300 : 60);
+    gen_heap_maxalloc(r, th ? 400 : 60);
+    gen_heap_big(r, th ? 44 : 11);
+    // probes of the two recorded findings (excluded from the diff, expected to fail the oracle)
+    for (int i = 0; i < 3; i++)
+    {
+        puts("reset heap 0");
+        printf("m 0 %zu\n", (size_t)r.below(2000));
+        printf("@F:C10-heap-arena-unbounded-by-default mx 1 %zu\n", STATIC_ARENA + (size_t)r.below(1u << 20));
+        puts("m 2 64\nf 0\nf 2");
+        puts("reset heap 0");
+        puts("m 0 1");
+        puts("@F:C10-heap-align-max-align-t al 0");
+        puts("f 0");
+    }
     // the release build (NDEBUG): histories with up to 400 live blocks
     gen_heap_random(r, th ? 40 : 8, th ? 1500 : 600, true);
 }
